@@ -22,7 +22,15 @@ def run(ctx):
     ctx.uses('eventlist')
     for cname_ in ctx.prog.subclasses('EventListInterface'):
         c01.check_eventlist(ctx, cname_)
+    # ... and the horizon test compares clock values, which are quantities on Duration clocks: their ordering operators must be the
+    # ordering of the SI values (shared rule with C01 / C16)
+    from . import c16
+    ctx.uses('units')
+    c16.r166(ctx, None)
     S.r32_ending(ctx, sc)
+    # ... and "the replication end" is what the replication object reports: start time + run length (shared rule with C02 / C06 / C11)
+    ctx.uses('experiment')
+    S.replication_frame(ctx, 'R3.6')
     S.r33_pop_horizon(ctx, sc)
     S.r34_bound_clamped(ctx, sc)
     S.r25_monotone_clock(ctx, sc)
